@@ -83,6 +83,7 @@ func (p *Parser) ReadAhead() (*base.T, error) {
 }
 
 func (p *Parser) Read() (*base.T, error) {
+	verifTick(p)
 	p.LastT = p.CurrentT
 
 	p.getToken()
